@@ -65,11 +65,20 @@ fn main() {
     } else {
         let mut rng = Rng::new(args.seed);
         let n_inputs = args.num("inputs", 40, 300) as usize;
-        for _ in 0..n_inputs {
-            let mut rc = match rng.below(10) {
-                0..=3 => Recipe::random_program(&mut rng),
-                4..=6 => Recipe::random_shared(&mut rng),
-                _ => Recipe::random_gadget(&mut rng),
+        // directed programs that are part of every run: two equally eligible candidates on diverging paths
+        let fixed: Vec<Recipe> = Recipe::always_diverge();
+        let n_fixed = fixed.len();
+        for i in 0..n_inputs + n_fixed {
+            let mut rc = if i < n_fixed {
+                fixed[i].clone()
+            } else {
+                match if args.extra.contains_key("only_deep_chain") { 8 } else { rng.below(12) } {
+                    0..=3 => Recipe::random_program(&mut rng),
+                    4..=6 => Recipe::random_shared(&mut rng),
+                    7 => Recipe::random_diverge(&mut rng),
+                    8 => Recipe::random_deep_chain(&mut rng),
+                    _ => Recipe::random_gadget(&mut rng),
+                }
             };
             if rc.g == "special" {
             } else if rc.g == "random" {
